@@ -53,7 +53,10 @@ In == JsonDeserialize(IOEnv.CAT_INPUT)
 Range(s) == {s[i] : i \in 1..Len(s)}
 Ascii == In.ascii
 Chr(i) == Ascii[i + 1]                       \* i in 1..94
-Idx == 1..(Len(Ascii) - 1)
+\* the square In.nidx x In.nidx of codes (94: printable ASCII; 223: every byte 33..255) is probed
+\* exhaustively, plus per model the pairs In.extra (codes outside the square chosen by the
+\* harness: single-bit changes and bit-7 images of the listed codes)
+Idx == 1..In.nidx
 IdxOf(s) == CHOOSE i \in Idx : Chr(i) = s
 Models == Range(In.models)
 \* the models explored by this run (all, or the one named by the environment variable CAT_MODEL)
@@ -259,11 +262,13 @@ Walk == /\ phase = "walk" /\ ~failed /\ ~unspec /\ n < MaxLen
         /\ hist' = Append(hist, last') /\ n' = n + 1
         /\ UNCHANGED <<mdl, phase, pv>>
 
+ExtraPairs(mc) == UNION {{<<p[1], p[2]>> : p \in Range(x.pairs)} : x \in {y \in Range(In.extra) : y.mc = mc}}
+ProbePairs(mc) == (Idx \X Idx) \cup ExtraPairs(mc)
 \* the code space, probed without payload in the canonical context
 Probe == /\ phase = "walk" /\ n = 1 /\ hist = <<CanonStart>> /\ ~failed /\ ~unspec
-         /\ \E c \in Idx, v \in Idx :
-               /\ CatStep(MkEv(mdl, c, v, <<>>, FALSE))
-               /\ pv' = [c |-> c, v |-> v, acc |-> ~failed' /\ ~unspec']
+         /\ \E cv \in ProbePairs(mdl) :
+               /\ CatStep(MkEv(mdl, cv[1], cv[2], <<>>, FALSE))
+               /\ pv' = [c |-> cv[1], v |-> cv[2], acc |-> ~failed' /\ ~unspec']
          /\ phase' = "probe" /\ last' = NoEv
          /\ UNCHANGED <<n, hist, mdl>>
 
@@ -296,5 +301,7 @@ Post ==
                               probes |-> TLCGet(2), expect_reject |-> TLCGet(3),
                               unwitnessed |-> AllListed \ TLCGet(1)])>>)
    /\ AllListed \subseteq TLCGet(1)
-   /\ TLCGet(2) = Cardinality(RunModels) * Cardinality(Idx) * Cardinality(Idx)
+   /\ LET RECURSIVE Tot(_)
+          Tot(M) == IF M = {} THEN 0 ELSE LET m == CHOOSE x \in M : TRUE IN Cardinality(ProbePairs(m.mc)) + Tot(M \ {m})
+      IN TLCGet(2) = Tot(RunModels)
 =============================================================================
